@@ -747,6 +747,30 @@ func checkReversal(method string, e *biasEvent, st *eventStats) []issue {
 		add("reversal-ordering-front", msg)
 		return is
 	}
+	// the same ordering rule as omission: weakest (default) / strongest select by the method's documented importance
+	if ord := strOr(e.Props, "ordering", ""); ord == "" || ord == "weakest" || ord == "strongest" {
+		if imp, ok := importanceOf(method, in); ok {
+			for _, o := range selList {
+				for _, cr := range in.Crit {
+					if sel[cr.Id] {
+						continue
+					}
+					tol := 1e-9 * (1 + math.Abs(imp[o]) + math.Abs(imp[cr.Id]))
+					if ord == "strongest" && imp[o] < imp[cr.Id]-tol {
+						add("reversal-importance", fmt.Sprintf("ordering strongest reversed '%s' (importance %v) but not the more important '%s' (%v)", o, imp[o], cr.Id, imp[cr.Id]))
+						return is
+					}
+					if ord != "strongest" && imp[o] > imp[cr.Id]+tol {
+						add("reversal-importance", fmt.Sprintf("ordering weakest reversed '%s' (importance %v) but not the less important '%s' (%v)", o, imp[o], cr.Id, imp[cr.Id]))
+						return is
+					}
+				}
+			}
+			if k > 0 && k < n {
+				st.add("importance_checked", 1)
+			}
+		}
+	}
 	st.add("reversal_events", 1)
 	if k > 0 {
 		st.add("reversal_nonempty", 1)
@@ -806,7 +830,13 @@ func checkFatigue(method string, e *biasEvent, st *eventStats) []issue {
 	up, down := 0, 0
 	for i, a := range inAll {
 		o := outAll[i]
-		if o.Id != a.Id || len(o.V) != len(a.V) {
+		lost := o.Id != a.Id
+		for _, cr := range in.Crit { // values for criteria nobody declared may be there or not: they take no part
+			if _, ok := o.V[cr.Id]; !ok {
+				lost = true
+			}
+		}
+		if lost {
 			add("fatigue-alternatives", "alternative "+a.Id+" changed identity or lost values")
 			return is
 		}
@@ -1117,6 +1147,15 @@ func checkAddition(method string, e *biasEvent, st *eventStats) []issue {
 		return is
 	}
 	nc := added[0]
+	if in.Params.OK && out.Params.OK {
+		pi, po := in.Params, out.Params
+		if pi.CurrentChoice != po.CurrentChoice || pi.Seed != po.Seed || pi.RandomOrder != po.RandomOrder || pi.Draw != po.Draw || pi.DistA != po.DistA || pi.DistB != po.DistB ||
+			(pi.Levels == nil) != (po.Levels == nil) || (pi.Levels != nil && (pi.Levels.Fn != po.Levels.Fn || pi.Levels.Coefficient != po.Levels.Coefficient || pi.Levels.MinValue != po.Levels.MinValue || pi.Levels.MaxValue != po.Levels.MaxValue)) {
+			add("added-params-other", fmt.Sprintf("extending the parameters for the new criterion changed a parameter that does not belong to any criterion (current choice / seed / random order / draw policy / distillation function / level function): %+v -> %+v", pi, po))
+			return is
+		}
+		st.add("other_parameters_kept", 1)
+	}
 	if out.Crit[len(out.Crit)-1].Id != nc.Id {
 		add("added-not-appended", "the new criterion is not appended at the end of the criteria")
 		return is
@@ -1140,7 +1179,13 @@ func checkAddition(method string, e *biasEvent, st *eventStats) []issue {
 			add("added-value-missing", "alternative "+a.Id+" has no value for the new criterion")
 			return is
 		}
-		if len(a.V) != len(outC) {
+		have := 0
+		for id := range outC { // values for criteria nobody declared may be there as well: they take no part
+			if _, ok := a.V[id]; ok {
+				have++
+			}
+		}
+		if have != len(outC) {
 			add("added-value-missing", "alternative "+a.Id+" does not have exactly one value per criterion")
 			return is
 		}
